@@ -13,6 +13,7 @@
 import Ladybug.Proofs.C18Lemmas
 import Ladybug.Proofs.C18Table
 import Ladybug.Proofs.C18Wind
+import Ladybug.Proofs.C18Hist
 import Ladybug.Gen.LazyDeps
 
 open Lazy
@@ -205,9 +206,105 @@ theorem C18_history_HourlyContinuousCollection_partial (ops : List TOp) :
     ∀ v ∈ runT Gen.LazyDeps.tblHourlyContinuousCollection.readOnly TState.empty ops, v = Verdict.ok :=
   C18_table_sound _ C18_deps_HourlyContinuousCollection_partial ops
 
-/-- the full HourlyContinuousCollection table (with the in-place converters) fails T4 only -/
-example : Gen.LazyDeps.tblHourlyContinuousCollection.resetsOk = false ∧
-    Gen.LazyDeps.tblHourlyContinuousCollection.putWhole = true := by decide +kernel
+/-! ### round 3: the in-place operations of the collections, refused operations -/
+
+/-- HourlyContinuousCollection, FULL table (strengthens the `_partial` pair above): with the header split
+into sub-object paths (`_header.analysis_period`, `_header.unit`, …) the regenerated table WITH the values
+setter and the in-place methods `convert_to_unit/ip/si`, `convert_to_culled_timestep` (and the memo-filling
+`to_immutable`, `get_aligned_collection`) is well-formed: every operation that assigns something the cached
+`datetimes` were derived from (the header's analysis period) also assigns or clears `_datetimes`.  Fails on a
+tree where an in-place operation swaps the analysis period and keeps the cached date-times. -/
+theorem C18_deps_HourlyContinuousCollection :
+    Gen.LazyDeps.tblHourlyContinuousCollection.wellFormed = true := by decide +kernel
+/-- HourlyContinuousCollection: every read in every history of reads, value assignments and in-place
+operations answers with its own expression on the current state. -/
+theorem C18_history_HourlyContinuousCollection (ops : List TOp) :
+    ∀ v ∈ runT Gen.LazyDeps.tblHourlyContinuousCollection TState.empty ops, v = Verdict.ok :=
+  C18_table_sound _ C18_deps_HourlyContinuousCollection ops
+
+section hist
+variable {Cfg Slot Val Field FVal : Type} [DecidableEq Slot]
+
+/-- A refused operation (a setter call whose argument is not valid for the current public state) returns
+the object unchanged - configuration and cache - and the output `refused`. -/
+theorem C18_refused_preserves (S : Spec Cfg Slot Val Field FVal) (valid : Field → FVal → Cfg → Bool)
+    (o : Obj Cfg Slot Val) (k : Field) (x : FVal) (h : valid k x o.cfg = false) :
+    step S valid o (.set k x) = (o, Out.refused) := by
+  simp [step, h]
+
+/-- … hence every observation after a refused operation is the observation before it. -/
+theorem C18_refused_preserves_reads (S : Spec Cfg Slot Val Field FVal) (valid : Field → FVal → Cfg → Bool)
+    (o : Obj Cfg Slot Val) (k : Field) (x : FVal) (h : valid k x o.cfg = false) (i : Slot) :
+    read S (step S valid o (.set k x)).1 i = read S o i := by
+  rw [C18_refused_preserves S valid o k x h]
+
+/-- HISTORY REFINES FRESH.  For every history of reads, accepted setter calls and refused setter calls
+(any order, any repetition, any length), every observation after the history equals the observation of a
+fresh object built from the final public state = the accepted calls only.  Hypothesis: the frame
+condition (each setter clears the slots that read its field), which `C18_table_frame` derives from a
+well-formed dependency table. -/
+theorem C18_history_refines_fresh (S : Spec Cfg Slot Val Field FVal) (H : Frame S)
+    (valid : Field → FVal → Cfg → Bool) (c : Cfg) (ops : List (HOp Slot Field FVal)) (i : Slot) :
+    (read S (runH S valid (fresh c) ops).2 i).1 = (read S (fresh (publicCfg S valid c ops)) i).1 := by
+  rw [runH_obj S valid ops (fresh c), publicCfg_eq S valid ops c]
+  exact C18_used_eq_fresh_final S H c (accepted S valid c ops) i
+
+/-- The public state after a history does not depend on the reads and refused calls in it. -/
+theorem C18_public_state_of_accepted (S : Spec Cfg Slot Val Field FVal) (valid : Field → FVal → Cfg → Bool)
+    (c : Cfg) (ops : List (HOp Slot Field FVal)) :
+    publicCfg S valid c ops = finalCfg S c (accepted S valid c ops) :=
+  publicCfg_eq S valid ops c
+
+end hist
+
+/-- non-vacuity on the toy class: setter values above 100 are refused; the refused call changes nothing and
+the last read equals that of a fresh object with the accepted value 7 -/
+example : (runH toySpec (fun _ x _ => decide (x ≤ 100)) (fresh 5)
+    [.read 1, .set () 500, .read 1, .set () 7, .set () 101, .read 1]).1 =
+    [.val 6, .refused, .val 6, .done, .refused, .val 8] := by decide
+
+/-- Table machine: a refused call of a setter that has assigned nothing before its last check leaves the
+machine state unchanged. -/
+theorem C18_table_refused_preserves (t : ClassTable) (s : Setter) (st : TState) (h : s.early.isEmpty = true) :
+    stepRefuse t s st = st := stepRefuse_safe t s st h
+
+/-- For every well-formed table none of whose setters assigns before it can refuse, every read of every
+history of reads, setter calls and REFUSED setter calls answers `ok`. -/
+theorem C18_table_refused_sound (t : ClassTable) (h : t.wellFormed = true) (hr : t.refusalSafe = true)
+    (ops : List XOp) : ∀ v ∈ runX t TState.empty ops, v = Verdict.ok := by
+  rw [runX_eq_runT t hr ops]
+  exact C18_table_sound t h _
+
+/-- WindRose: no setter has assigned a value when it can still refuse (clearing the cached container
+early is harmless); with `C18_deps_WindRose`: histories with refused calls are sound. -/
+theorem C18_refusal_safe_WindRose : Gen.LazyDeps.tblWindRose.refusalSafe = true := by decide +kernel
+theorem C18_history_refused_WindRose (ops : List XOp) :
+    ∀ v ∈ runX Gen.LazyDeps.tblWindRose TState.empty ops, v = Verdict.ok :=
+  C18_table_refused_sound _ C18_deps_WindRose C18_refusal_safe_WindRose ops
+
+/-- MonthlyChart: the two limit methods refuse nothing after assigning. -/
+theorem C18_refusal_safe_MonthlyChart : Gen.LazyDeps.tblMonthlyChart.refusalSafe = true := by decide +kernel
+
+/-- HourlyContinuousCollection: the values setter checks before it assigns, the in-place methods assert
+before they assign. -/
+theorem C18_refusal_safe_HourlyContinuousCollection :
+    Gen.LazyDeps.tblHourlyContinuousCollection.refusalSafe = true := by decide +kernel
+theorem C18_history_refused_HourlyContinuousCollection (ops : List XOp) :
+    ∀ v ∈ runX Gen.LazyDeps.tblHourlyContinuousCollection TState.empty ops, v = Verdict.ok :=
+  C18_table_refused_sound _ C18_deps_HourlyContinuousCollection C18_refusal_safe_HourlyContinuousCollection ops
+
+/-- Defect shape "assign, then validate" (the three Compass setters of the pinned tree, recorded finding):
+a toy setter that has written attribute 1 when it refuses; a slot computed from attribute 1 before the
+refused call is stale afterwards, and `refusalSafe` rejects the table. -/
+def toyEarly : ClassTable :=
+  { name := "ToyEarly", attrs := ["_slot", "_radius"], init := [0, 1],
+    getters := [{ name := "p", sites := [{ guarded := true, guard := [0], slots := [0], expr := 0,
+                                           reads := [0, 1], clears := [] }], direct := [0], clears := [] }],
+    setters := [{ name := "radius", writes := [1], clears := [0], early := [1] }] }
+
+theorem C18_refused_assigns_counterexample_shape :
+    toyEarly.wellFormed = true ∧ toyEarly.refusalSafe = false ∧
+    runX toyEarly .empty [.get 0, .refuse 0, .get 0] = [.ok, .stale] := by decide
 
 /-- non-vacuity: a WindRose history with setters and repeated reads -/
 example : runT Gen.LazyDeps.tblWindRose TState.empty [.get 7, .put 1, .get 7, .get 8, .put 5, .get 7] =
